@@ -202,9 +202,13 @@ func (p *exeParser) readFragment() (sel Selection, err error) {
 			line := p.line
 			col := p.col
 			if t, err = p.readType(); err == nil {
-				if _, ok := t.(*Ref); ok {
+				switch t.(type) {
+				case *Ref, *Directive:
+					// A directive is found by name as well but is not a type.
 					err = parseError(line, col, "type %s not defined", t.Name())
-				} else {
+				case *List, *NonNull:
+					err = parseError(line, col, "a type condition is the name of a type, not %s", t.Name())
+				default:
 					sel, err = p.readInline(t)
 				}
 			}
